@@ -80,8 +80,8 @@ CHECKS = {
     "C05": dict(
         level="exploration", design="DESIGN.md §3 C05",
         technique="runtime monitoring: histories generated online against an ownership model (owner multisets), destruction observed through userdata delete callbacks + allocation ledger + ASan (use-after-free/double free)",
-        text="~5k (quick) / 200k histories of 30-300 API calls over 24 handles incl. shared sub-trees, failing calls and tracked deep copies; after every call the destroyed-uid set, put's return value and (on probes) the whole uid structure are compared with the model.",
-        note="trusted: the Python ownership model; pointer_set/patch steps are exercised for ownership in C12/C13 (value ownership probes, ledger) rather than here"),
+        text="24k (quick) / 200k histories of 30-300 API calls over 24 handles incl. shared sub-trees, failing calls, tracked and failing deep copies, pointer_set and patch steps; after every call the destroyed-uid set, put's return value and (on probes) the whole uid structure are compared with the model.",
+        note="trusted: the Python ownership model (owner multisets over a DAG of nodes), incl. json_pointer_set and in-place json_patch_apply (remove/move/add/replace) steps"),
     "C12": dict(
         level="exploration", design="DESIGN.md §3 C12",
         technique="runtime monitoring: ASan driver + RFC 6901 reference evaluator over observed node identities (pointer-annotated dumps) for get/getf/set/setf; full-tree dump diff after every set; ownership probe after failed sets",
